@@ -9,7 +9,7 @@ outrank \
     --task all \
     --data_path $PATH_TO_YOUR_DATA \
     --data_source ob-csv \
-    --heuristic surrogate-SGD-prior \
+    --heuristic surrogate-SGD \
     --target_ranking_only True \
     --interaction_order 2 \
     --combination_number_upper_bound 2048 \
